@@ -22,6 +22,8 @@ import (
 	"github.com/marekgalovic/anndb/index"
 	pb "github.com/marekgalovic/anndb/protobuf"
 	uuid "github.com/satori/go.uuid"
+	"google.golang.org/grpc/codes"
+	"google.golang.org/grpc/status"
 )
 
 type variant struct {
@@ -79,6 +81,7 @@ func build(v variant) *explore.Scenario {
 					}
 				}
 			}
+			streamCalls := 0
 			consulted := map[string]int{} // partition id -> times searched (outer requests)
 			fakes.Intercept = func(target, method string, ctx context.Context, req interface{}) (bool, interface{}, error) {
 				if method != "SearchPartitions" {
@@ -90,6 +93,16 @@ func build(v variant) *explore.Scenario {
 				}
 				if v.failNode != 0 && v.failMode == "rpc" && target == world.Addr(v.failNode) {
 					return true, nil, fakes.ErrUnavailable
+				}
+				if v.failNode != 0 && target == world.Addr(v.failNode) {
+					// the node itself ends the call with a status that looks like the echo of a caller's cancellation or
+					// deadline (its own deadline fired, it is shutting down) while the caller's context is alive
+					switch v.failMode {
+					case "rpc-canceled":
+						return true, nil, status.Error(codes.Canceled, "context canceled")
+					case "rpc-deadline":
+						return true, nil, status.Error(codes.DeadlineExceeded, "context deadline exceeded")
+					}
 				}
 				if v.mode == "outer" {
 					// canned answer: what the target's partitions return, merged sequentially
@@ -114,6 +127,20 @@ func build(v variant) *explore.Scenario {
 					sort.Sort(all)
 					if int(r.K) < len(all) {
 						all = all[:r.K]
+					}
+					if v.failNode != 0 && v.failMode == "stream-once" && target == world.Addr(v.failNode) {
+						// a transient fault: the node's first answer breaks after one item (Unavailable), a second call would succeed
+						streamCalls++
+						if streamCalls == 1 {
+							cn := fakes.CannedItems(all[:1])
+							cn.Err = fakes.ErrUnavailable
+							return true, cn, nil
+						}
+					}
+					if v.failNode != 0 && v.failMode == "stream-canceled" && target == world.Addr(v.failNode) {
+						cn := fakes.CannedItems(all[:1])
+						cn.Err = status.Error(codes.Canceled, "context canceled")
+						return true, cn, nil
 					}
 					if v.failNode != 0 && v.failMode == "stream" && target == world.Addr(v.failNode) {
 						// the node dies mid-answer: one item arrives, then the stream reports an error
@@ -204,6 +231,10 @@ func build(v variant) *explore.Scenario {
 					}
 					if v.failNode != 0 && fakes.Calls[world.Addr(v.failNode)+" SearchPartitions"] > 0 {
 						hit = true
+					}
+					if v.failMode == "stream-once" {
+						// a transient fault: asking the node again is a legitimate way to succeed - with the exact answer
+						hit = false
 					}
 					if hit {
 						return &explore.Violation{Key: classify(res, union, "fault") + itemClause(res, v.k, truth()), Desc: fmt.Sprintf("a node could not be searched but Search returned success with %d items (expected an error); full answer would be %v", len(res), ids(union))}
@@ -309,6 +340,10 @@ func main() {
 		variant{name: "outer-P2-fail-rpc", mode: "outer", nodes: 2, placement: [][]uint64{{1}, {2}}, k: 3, failNode: 2, failMode: "rpc"},
 		variant{name: "outer-P2-fail-down", mode: "outer", nodes: 3, placement: [][]uint64{{2}, {3}}, k: 3, failNode: 3, failMode: "down"},
 		variant{name: "outer-P2-fail-stream", mode: "outer", nodes: 2, placement: [][]uint64{{1}, {2}}, k: 3, failNode: 2, failMode: "stream"},
+		variant{name: "outer-P2-fail-stream-once", mode: "outer", nodes: 2, placement: [][]uint64{{1}, {2}}, k: 3, failNode: 2, failMode: "stream-once", maxQuick: 1},
+		variant{name: "outer-P2-fail-stream-canceled-by-the-node", mode: "outer", nodes: 2, placement: [][]uint64{{1}, {2}}, k: 3, failNode: 2, failMode: "stream-canceled", maxQuick: 1},
+		variant{name: "outer-P2-fail-rpc-canceled-by-the-node", mode: "outer", nodes: 2, placement: [][]uint64{{1}, {2}}, k: 3, failNode: 2, failMode: "rpc-canceled", maxQuick: 1},
+		variant{name: "outer-P2-fail-rpc-deadline-of-the-node", mode: "outer", nodes: 2, placement: [][]uint64{{1}, {2}}, k: 3, failNode: 2, failMode: "rpc-deadline", maxQuick: 1},
 		variant{name: "outer-P3-fail-stream", mode: "outer", nodes: 3, placement: [][]uint64{{1}, {2}, {3}}, k: 4, failNode: 3, failMode: "stream", maxQuick: 1},
 		variant{name: "full-P2-replica-lacks-dataset", mode: "full", nodes: 2, placement: [][]uint64{{1}, {2}}, k: 3, failNode: 2, failMode: "nodataset"},
 		variant{name: "full-P2-R2-replica-lacks-dataset", mode: "full", nodes: 3, placement: [][]uint64{{1, 3}, {2, 3}}, k: 3, failNode: 3, failMode: "nodataset", maxQuick: 1},
